@@ -1,12 +1,13 @@
 SPECIFICATION Spec
 CONSTANTS
   NT = 2
-  NFiles = 3
-  NLinks = 2
+  NFiles = 1
+  NLinks = 1
   MayCrash = TRUE
   Fix_LinksToAll = TRUE
   Fix_ServeAll = TRUE
   Fix_PairByRequest = TRUE
+  Fix_NoPayloadCache = TRUE
 INVARIANT Pairing
 INVARIANT CompleteAtReturn
 INVARIANT CallbackAtMostOnce
